@@ -49,6 +49,12 @@ claims.update({
    'Not decided: no-panic (reflection), exact value fidelity, completeness (valid input accepted) beyond the tables; slice/map elements carry no per-element options.',
    'DESIGN.md 3.C08'),
 })
+claims.update({
+ 'C12': ('other', 'goroutine confinement over the package call graph, per-element typestate of the scan/drain loops on all paths, closed forms and quotient/remainder pairing by algebraic normal form',
+   'Wheel state is mutated only from the run goroutine (API only sends, rejects delay<=0 / nil key); per scanned entry: removed => unlinked never fired, circle>0 => only decremented, diff>0 => relocated to (tickedPos+diff)%n with position entry updated and diff cleared, else fired exactly once, unlinked, key deleted; drain unlinks all, delivers exactly the non-removed, forgets keys; set clamps and places new timers at the closed-form slot with its circle; getPositionAndCircle == the closed forms named in the property; a lazy move stores circle/diff as quotient/remainder by numSlots of one non-negative quantity depending on delay, holding slot and cursor, otherwise re-inserts a fresh entry at the computed slot.',
+   'Not decided: the tick arithmetic in general (that the lazily moved quantity is exactly steps minus the ticks until the holding slot is scanned again), timing. Two genuine defects found by these rules were repaired (07dfa65, 4267200).',
+   'DESIGN.md 3.C12'),
+})
 not_built_reason = 'static rules designed (DESIGN.md section 3) but not built yet in this revision'
 
 checks, na = [], []
